@@ -79,7 +79,7 @@ def select(cands):
     for c in cands:
         s = c["sig"]
         # the same parent-key defect shows for every subject: do not split it by extension
-        ext = s.get("ext", "") if s.get("op") in ("MarshalJSON2", "JsonifyExtensions", "CollectAllNames", "ParsedNames", "VerifyHostname") else ""
+        ext = s.get("ext", "") if s.get("op") in ("MarshalJSON2", "JsonifyExtensions") else ""
         g = (s.get("op"), s.get("fail"), s.get("site"), ext)
         count[g] += 1
         s["ext"] = ext
@@ -191,6 +191,9 @@ def run(ctx):
     ctx.log("summaries judged: %d, rejected operations: %d" % (len(recs), len(rej)))
     ctx.cov["traces_validated_against_impl"] += len(recs)
     cands = select(candidates_from(recs, rej))
+    if len(cands) > 40:
+        ctx.note("%d distinct violation signatures; reproducing the first 40" % len(cands))
+        cands = cands[:40]
     machinery = [c for c in cands if c["sig"].get("fail", "").startswith("machinery:")]
     if machinery:
         raise Machinery("observations rejected as malformed: %s" % json.dumps(machinery[0]["sig"]))
